@@ -296,8 +296,9 @@ def check_class(ctx, cls_fq):
             check_init(ctx, w, m, construct, paths)
             continue
         lockstep(ctx, w, m, construct, paths)
-        if name == '__setitem__':
-            capacity(ctx, w, m, construct, paths)
+        # every operation that can add a key (not only __setitem__: a bulk operation with its own "there is room" shortcut
+        # bypasses the capacity test just as well)
+        capacity(ctx, w, m, construct, paths, require=(name == '__setitem__'))
         if name == '__getitem__':
             counters_getitem(ctx, w, m, construct, paths)
         if name in ('get', 'setdefault'):
@@ -400,7 +401,7 @@ def tok_list_has(w, list_txt, val_txt):
     return False
 
 
-def capacity(ctx, w, m, construct, paths):
+def capacity(ctx, w, m, construct, paths, require=True):
     """T7: insertion without eviction only under `size < max_size`."""
     n = 0
     for p in paths:
@@ -429,7 +430,7 @@ def capacity(ctx, w, m, construct, paths):
             ok = bool(pdel) and bool(pset) and pdel[0].op.seq < pset[0].op.seq
             ctx.ob('T7e', construct, 'when full, the evicted key is deleted from the dict storage before the new key is stored',
                    ok, loc=loc_of(m, e.op), path=p.describe() if not ok else None)
-    if n == 0:
+    if n == 0 and require:
         raise AnalysisError('no insertion path found in %s' % construct)
 
 
